@@ -95,6 +95,7 @@ def lawcase(c, f):
 def sdesc(d):
     if d["Kind"] == "none": return "TNone"
     if d["Kind"] == "copy": return "TCopyFirst"
+    if d["Kind"] == "lazy": return "(TLazy %s %s)" % (N(d["Gen"]), N(d["Kill"]))
     return "(TGen %s %s)" % (N(d["Gen"]), N(d["Kill"]))
 def scase(c):
     return "mkSC %s %s %s %s %s" % (
